@@ -70,6 +70,23 @@ CHECKS = {
             "worker's send queue, and the identity of the fallback answer.",
             "Trusted: TLC, the in-process worker (real Worker objects on threading primitives, barrier waits short-circuited to the "
             "timeout branch they always take below 40 parties).", "4 C13"),
+    "C14": ("TLA+ state machine spec/Pending.tla (caller / dispatcher / two-event rendezvous) model-checked by TLC for 2..3 callers "
+            "with answers arriving at any point and optionally repeated: OwnAnswer, NoLostWake, deadlock freedom, <>AllReturn "
+            "under fairness; the pinned queue-then-register order shown to violate NoLostWake; real send_message / "
+            "handler_pending_answers run under a deterministic scheduler with monitors; every recorded execution validated by TLC "
+            "as a behaviour of the specification",
+            "All interleavings of the rendezvous for 2..3 callers in the model; hundreds/thousands of seeded schedules of the real "
+            "code with yield points at every queue, registry and event operation, each trace accepted by TLC.",
+            "Trusted: TLC, engine/vsched.py (scheduler and doubles), the traced registry/event wrappers. Threads are serialised "
+            "(GIL semantics).", "4 C14"),
+    "C15": ("TLA+ spec/Ids.tla: operator Run (sequential draw-until-unused) enumerated by TLC over creation histories x all outputs of "
+            "a 3-valued random source and replayed with a scripted os.urandom; state machine of the concurrent draw/test/append "
+            "protocol model-checked (Distinct, Mutex; lock-free variant violates Distinct); real constructors run in 2..3 threads "
+            "under a deterministic scheduler with an adversarial source; recorded executions validated by TLC",
+            "Every history of length <= 3/4 x every source output of length 5/6; all interleavings of the protocol for 2..3 "
+            "threads in the model; 300/6000 scheduled executions with yield points at every draw, membership test and append "
+            "(plus bytecode-level preemption in the thorough tier).",
+            "Trusted: TLC, engine/vsched.py, the substituted random source and registry lists.", "4 C15"),
     "C16": ("TLA+ state machine spec/Session.tla model-checked by TLC (Unique, Counted; the historic reset-on-switch deviation is shown "
             "to violate them); every TLC-enumerated operation sequence executed on the real generator under a controlled clock; "
             "recorded histories validated by TLC",
